@@ -148,6 +148,294 @@ def float_bits(fr, p, ebits):
     return ((ee + bias) << (p - 1)) | (m - (1 << (p - 1)))
 
 
+
+# ------------------------------------------------------------------ float constant expressions (FC stream)
+FMT = {"float32": (24, 8), "float64": (53, 11)}
+
+
+def sx_parse(text):
+    """minimal S-expression reader (atoms bare or double-quoted)"""
+    toks = re.findall(r'"(?:[^"\\]|\\.)*"|[()]|[^\s()]+', text)
+    def rd(i):
+        t = toks[i]
+        if t == "(":
+            out, i = [], i + 1
+            while toks[i] != ")":
+                v, i = rd(i)
+                out.append(v)
+            return out, i + 1
+        if t.startswith('"'):
+            return t[1:-1].replace('\\"', '"').replace("\\\\", "\\"), i + 1
+        return t, i + 1
+    return rd(0)[0]
+
+
+def fbits(fr, ty):
+    """bits of the float of type ty nearest to the rational fr (ties to even); a rational zero is +0"""
+    p, eb = FMT[ty]
+    if fr < 0:
+        return float_bits(-fr, p, eb) | (1 << (p - 1 + eb))
+    return float_bits(fr, p, eb)
+
+
+def fval(bits, ty):
+    """the rational a finite float stands for; None for inf/nan"""
+    p, eb = FMT[ty]
+    sign = bits >> (p - 1 + eb) & 1
+    ef = bits >> (p - 1) & ((1 << eb) - 1)
+    mant = bits & ((1 << (p - 1)) - 1)
+    if ef == (1 << eb) - 1:
+        return None
+    bias = (1 << (eb - 1)) - 1
+    m, e = (mant, 1 - bias - (p - 1)) if ef == 0 else (mant + (1 << (p - 1)), ef - bias - (p - 1))
+    v = Fraction(m) * Fraction(2) ** e
+    return -v if sign else v
+
+
+def finf(ty, neg=False):
+    p, eb = FMT[ty]
+    return (((1 << eb) - 1) << (p - 1)) | ((1 << (p - 1 + eb)) if neg else 0)
+
+
+def ieee(sym, x, y, ty):
+    """IEEE-754 operation on two finite floats given as bits: the exact result, correctly rounded"""
+    a, b = fval(x, ty), fval(y, ty)
+    if a is None or b is None:
+        raise ValueError("inf-or-nan operand")
+    if sym == "/":
+        if b == 0:
+            if a == 0:
+                raise ValueError("nan")
+            return finf(ty, (a < 0) != bool(y >> (sum(FMT[ty]) - 1) & 1))
+        return fbits(a / b, ty)
+    return fbits({"+": a + b, "-": a - b, "*": a * b}[sym], ty)
+
+
+def fcmp(sym, a, b):
+    return {"<": a < b, "<=": a <= b, ">": a > b, ">=": a >= b, "==": a == b, "!=": a != b}[sym]
+
+
+def src_float_eval(t, ty, env):
+    """SOURCE meaning of an FC expression tree: every literal is rounded to ty, every operator is the IEEE operation"""
+    k = t[0]
+    if k == "lit": return ("f", fbits(Fraction(t[1]), ty))
+    if k == "var": return ("f", env[t[1]])
+    if k == "neg":
+        v = src_float_eval(t[1], ty, env)
+        return ("f", v[1] ^ (1 << (sum(FMT[ty]) - 1)))
+    if k == "bin":
+        x, y = src_float_eval(t[2], ty, env), src_float_eval(t[3], ty, env)
+        return ("f", ieee(t[1], x[1], y[1], ty))
+    if k == "call":
+        x = src_float_eval(t[1], ty, env)
+        return ("f", ieee("+", x[1], fbits(Fraction("0.25"), ty), ty))
+    if k == "cmp":
+        x, y = src_float_eval(t[2], ty, env), src_float_eval(t[3], ty, env)
+        return ("b", fcmp(t[1], fval(x[1], ty), fval(y[1], ty)))
+    if k == "if":
+        c = src_float_eval(t[1], ty, env)
+        return src_float_eval(t[2] if c[1] else t[3], ty, env)
+    raise ValueError("bad tree " + str(t))
+
+
+class GoCompileError(Exception):
+    pass
+
+
+def go_const_bin(sym, a, b):
+    """one operator on two untyped constants, exactly: ('i', int) | ('q', Fraction) | ('b', bool)"""
+    if a[0] == "b" or b[0] == "b":
+        if a[0] == b[0] == "b" and sym in ("&&", "||", "==", "!="):
+            return ("b", {"&&": a[1] and b[1], "||": a[1] or b[1], "==": a[1] == b[1], "!=": a[1] != b[1]}[sym])
+        raise GoCompileError("mismatched-operands")
+    if sym in ("<", "<=", ">", ">=", "==", "!="):
+        return ("b", fcmp(sym, Fraction(a[1]), Fraction(b[1])))
+    if a[0] == b[0] == "i":
+        if sym == "/":
+            if b[1] == 0: raise GoCompileError("division-by-zero")
+            return ("i", tdiv(a[1], b[1]))
+        return ("i", {"+": a[1] + b[1], "-": a[1] - b[1], "*": a[1] * b[1]}[sym])
+    x, y = Fraction(a[1]), Fraction(b[1])
+    if sym == "/":
+        if y == 0: raise GoCompileError("division-by-zero")
+        return ("q", x / y)
+    return ("q", {"+": x + y, "-": x - y, "*": x * y}[sym])
+
+
+def go_convert(ty, v):
+    """the one conversion of an untyped constant at a typed position"""
+    if v[0] != "c":
+        return v
+    c = v[1]
+    if ty == "bool":
+        if c[0] != "b": raise GoCompileError("mismatched-operands")
+        return ("b", c[1])
+    if ty not in FMT or c[0] == "b":
+        raise GoCompileError("mismatched-operands")
+    bits = fbits(Fraction(c[1]), ty)
+    if bits & ~(1 << (sum(FMT[ty]) - 1)) == finf(ty):
+        raise GoCompileError("constant-overflows-type")
+    return ("f", ty, bits)
+
+
+def go_eval_expr(e, env, fns):
+    k = e[0]
+    if k == "num":
+        t = e[1]
+        if not re.fullmatch(r"\d+(\.\d+)?", t): raise GoCompileError("bad-literal")
+        return ("c", ("q", Fraction(t)) if "." in t else ("i", int(t)))
+    if k == "var":
+        if e[1] in ("true", "false"): return ("b", e[1] == "true")
+        return env[e[1]][1]
+    if k == "paren":
+        return go_eval_expr(e[1], env, fns)
+    if k == "un" and e[1] == "neg":
+        v = go_eval_expr(e[2], env, fns)
+        if v[0] == "c": return ("c", (v[1][0], -v[1][1]))
+        return ("f", v[1], v[2] ^ (1 << (sum(FMT[v[1]]) - 1)))
+    if k == "un" and e[1] == "not":
+        v = go_eval_expr(e[2], env, fns)
+        return ("b", not v[1]) if v[0] == "b" else ("c", ("b", not v[1][1]))
+    if k == "bin":
+        a, b = go_eval_expr(e[2], env, fns), go_eval_expr(e[3], env, fns)
+        if a[0] == "c" and b[0] == "c":
+            return ("c", go_const_bin(e[1], a[1], b[1]))
+        if a[0] == "c": a = go_convert(b[1] if b[0] == "f" else "bool", a)
+        if b[0] == "c": b = go_convert(a[1] if a[0] == "f" else "bool", b)
+        if a[0] == "f" and b[0] == "f":
+            if e[1] in ("<", "<=", ">", ">=", "==", "!="):
+                return ("b", fcmp(e[1], fval(a[2], a[1]), fval(b[2], b[1])))
+            return ("f", a[1], ieee(e[1], a[2], b[2], a[1]))
+        if a[0] == "b" and b[0] == "b":
+            return ("b", {"&&": a[1] and b[1], "||": a[1] or b[1], "==": a[1] == b[1], "!=": a[1] != b[1]}[e[1]])
+        raise ValueError("operands-not-evaluable")
+    if k == "call" and e[1][0] == "var" and e[1][1] in fns:
+        name, params, ret, body = fns[e[1][1]]
+        loc = {}
+        for (x, t), a in zip(params, e[2:]):
+            loc[x] = (t, go_convert(t, go_eval_expr(a, env, fns)))
+        r = go_exec(body, loc, ret, fns)
+        if r is None: raise ValueError("no-return")
+        return r
+    return ("other",)
+
+
+def go_exec(stmts, env, ret, fns):
+    for st in stmts:
+        k = st[0]
+        if k == "vardecl":
+            _, x, t, init = st
+            if init == "none":
+                env[x] = (t, ("f", t, 0) if t in FMT else ("b", False) if t == "bool" else ("other",))
+            else:
+                env[x] = (t, go_convert(t, go_eval_expr(init, env, fns)))
+        elif k == "assign" and st[1][0] == "var":
+            t = env[st[1][1]][0]
+            env[st[1][1]] = (t, go_convert(t, go_eval_expr(st[2], env, fns)))
+        elif k == "return":
+            return go_convert(ret, go_eval_expr(st[1], env, fns))
+        elif k == "if":
+            c = go_convert("bool", go_eval_expr(st[1], env, fns))
+            r = go_exec(st[2] if c[1] else (st[3] if isinstance(st[3], list) else []), env, ret, fns)
+            if r is not None:
+                return r
+    return None
+
+
+def go_const_tree(e):
+    """the all-literal operator tree rooted at e, as (ops, [literal texts]) — or None"""
+    if not isinstance(e, list) or not e: return None
+    if e[0] == "num": return (0, [e[1]])
+    if e[0] == "paren": return go_const_tree(e[1])
+    if e[0] == "un" and e[1] == "neg": return go_const_tree(e[2])
+    if e[0] == "bin":
+        a, b = go_const_tree(e[2]), go_const_tree(e[3])
+        if a and b: return (1 + a[0] + b[0], a[1] + b[1])
+    return None
+
+
+def go_const_scan(e, ty, found):
+    """static rules: every all-literal operator is evaluated at compile time wherever it stands"""
+    if not isinstance(e, list): return
+    t = go_const_tree(e)
+    if t is not None:
+        if t[0] >= 1:
+            found.append(t)
+            v = go_eval_expr(e, {}, {})
+            if v[0] == "c" and v[1][0] != "b":
+                go_convert(ty, v)
+        return
+    for x in e:
+        go_const_scan(x, ty, found)
+
+
+def go_file_eval(gofile, ty):
+    """(result, max operators in one constant expression, texts of the literals inside constant expressions)"""
+    fns = {}
+    for it in gofile[1:]:
+        if it[0] == "func":
+            fns[it[1]] = (it[1], [(p[0], p[1]) for p in it[2]], it[3], it[4])
+    found = []
+    try:
+        for name in ("g", "f"):
+            if name in fns:
+                go_const_scan(fns[name][3], ty, found)
+        call = next(st[3] for st in fns["main0"][3] if st[0] == "vardecl" and isinstance(st[3], list) and st[3][0] == "call" and st[3][1] == ["var", "f"])
+        res = go_eval_expr(call, {}, fns)
+    except GoCompileError as ex:
+        res = ("go-compile-error", str(ex))
+    ops = max([t[0] for t in found] or [0])
+    texts = [x for t in found for x in t[1]]
+    return res, ops, texts
+
+
+def text_class(text, ty):
+    """how well a printed literal text pins down the float it stands for"""
+    q = Fraction(text)
+    if fval(fbits(q, ty), ty) == q:
+        return "exact"
+    if ty == "float64":
+        return "f64-round-trip"
+    # float32: does the f64 nearest to the text coincide with the float32 (i.e. the text is `{}` of the widened value)?
+    return "f64-round-trip" if fval(fbits(q, "float64"), "float64") == fval(fbits(q, "float32"), "float32") else "f32-round-trip-only"
+
+
+def parse_go_number(s, ty):
+    """bits denoted by Go's %g / %v rendering of a float"""
+    s = s.strip()
+    if s in ("+Inf", "Inf"): return finf(ty)
+    if s == "-Inf": return finf(ty, True)
+    m = re.fullmatch(r"(-?)(\d+(?:\.\d+)?)(?:e([+-]\d+))?", s)
+    if not m: return None
+    q = Fraction(m.group(2)) * Fraction(10) ** int(m.group(3) or 0)
+    b = fbits(q, ty)
+    return b | (1 << (sum(FMT[ty]) - 1)) if m.group(1) else b
+
+
+def _go_lines(gofile):
+    for it in gofile[1:]:
+        if it[0] == "func" and it[1] in ("f", "g"):
+            yield f"func {it[1]}: " + " ; ".join(_go_stmt(st) for st in it[4])
+
+
+def _go_expr(e):
+    if not isinstance(e, list): return str(e)
+    if e[0] in ("num", "var"): return e[1]
+    if e[0] == "bin": return f"{_go_expr(e[2])} {e[1]} {_go_expr(e[3])}"
+    if e[0] == "un": return ("-" if e[1] == "neg" else "!") + _go_expr(e[2])
+    if e[0] == "paren": return f"({_go_expr(e[1])})"
+    if e[0] == "call": return f"{_go_expr(e[1])}({', '.join(_go_expr(x) for x in e[2:])})"
+    return str(e)
+
+
+def _go_stmt(st):
+    if st[0] == "vardecl": return f"var {st[1]} {st[2]}" + ("" if st[3] == "none" else f" = {_go_expr(st[3])}")
+    if st[0] == "assign": return f"{_go_expr(st[1])} = {_go_expr(st[2])}"
+    if st[0] == "return": return f"return {_go_expr(st[1])}"
+    if st[0] == "if": return f"if {_go_expr(st[1])} {{ {' ; '.join(_go_stmt(x) for x in st[2])} }} else {{ {' ; '.join(_go_stmt(x) for x in st[3]) if isinstance(st[3], list) else ''} }}"
+    return str(st)
+
+
 def fields(s):
     return dict(x.split("=", 1) for x in s.split() if "=" in x)
 
@@ -160,16 +448,24 @@ def run(ctx):
     ok, out = ctx.gv("c10")
     rows = vlib.read_tsv(os.path.join(ctx.run_dir, "c10.cases.tsv")) if ok else []
     cases = [r + [""] * (5 - len(r)) for r in rows if len(r) >= 4]
-    to_model = [f"{r[0]}\t{r[2]}" for r in cases if r[1] != "FLT"]
+    to_model = [f"{r[0]}\t{r[2]}" for r in cases if r[1] not in ("FLT", "FC")]
+    for r in cases:
+        if r[1] == "FC" and r[3].startswith("ok "):
+            to_model.append(f"{r[0]}\t(goeval {r[2].split()[1]} {vlib.unesc(r[3])[3:]})")
+        elif r[1] == "FLT":
+            a_ = re.findall(r"[^\s()]+", r[2])
+            to_model.append(f"{r[0]}\t(fround {'float32' if a_[2] == 'f32' else 'float64'} {a_[1]})")
+    to_model.append("fprint\t(fprint)")
     model = ctx.model("c10", to_model) if to_model and os.path.exists(vlib.MODEL) else {}
     rnd = random.Random(ctx.seed)
-    n = {k: 0 for k in ("LIT", "NEG", "PAT", "OP", "FLT", "PARSE", "EVAL", "FMT", "TOSTR")}
+    n = {k: 0 for k in ("LIT", "NEG", "PAT", "OP", "FLT", "FC", "PARSE", "EVAL", "FMT", "TOSTR")}
     eq = dict(n)
     stats = {"lit_accept": 0, "lit_reject_out_of_range": 0, "lit_reject_annotation": 0, "op_value_checks": 0, "op_const_exprs": 0,
              "flt_accept": 0, "flt_reject": 0, "flt_double_rounding_discriminating": 0, "flt_double_rounded": 0, "pat_accept": 0, "pat_reject": 0,
              "pat_known_scrutinee": 0, "pat_inferred_scrutinee": 0, "pat_inferred_accept": 0,
              "pat_inferred_unsuffixed_in_range_rejected_as_mismatch": 0, "neg_accept": 0, "neg_reject": 0, "neg_most_negative_value_not_writable": 0}
     distinct = set()
+    fc_sem = []
     samples_out = []
     model_diffs = 0
 
@@ -402,6 +698,10 @@ def run(ctx):
             f = fields(impl)
             ref = f.get("ref32" if f32 else "ref64")
             distinct.add(("FLT", text, sfx))
+            if pred != ("none" if want == inf else f"{want:x}"):
+                tie_fail(kind, r, pred + f" (Model/GoConst.litBits) python={want:x}")
+            else:
+                eq[kind] += 1
             if ref not in (None, "err") and int(ref, 16) != want:
                 ctx.broken_ties.append(("float oracle", f"case {cid}: python rounding {want:0{width}x} != Rust parse {ref} for {text}"))
             if f32 and f.get("ref32") != f.get("dbl32"):
@@ -432,6 +732,64 @@ def run(ctx):
                     ctx.report({"oracle": "float-literal", "kind": "in-range-literal-rejected"}, f"`{text}{sfx}` is finite and in range but rejected", payload)
             else:
                 ctx.report({"oracle": "float-literal", "kind": "panic-or-unreadable"}, f"`{text}{sfx}`: {impl[:80]}", payload)
+
+        # ---------------------------------------------------------------- FC: float operators on literal operands
+        elif kind == "FC":
+            tree = sx_parse(sexp)
+            ty, retk, av, bv, tag, expr = tree[1], tree[2], tree[3], tree[4], tree[5], tree[6]
+            distinct.add(("FC", sexp))
+            stats["fc_" + tag] = stats.get("fc_" + tag, 0) + 1
+            if not impl.startswith("ok "):
+                ctx.report({"oracle": "float-constant", "kind": "float-program-not-compiled"}, f"{src.splitlines()[-6] if src else sexp}: {impl[:100]}", payload)
+                continue
+            payload = {"id": cid, "case": sexp, "src": src}
+            gofile = sx_parse(impl[3:])
+            # (1) the source meaning, from the written literals: exact rationals, one rounding per literal and per operator
+            try:
+                env = {"a": fbits(Fraction(av), ty), "b": fbits(Fraction(bv), ty)}
+                want = src_float_eval(expr, ty, env)
+            except ValueError as ex:
+                stats["fc_skipped_inf_nan"] = stats.get("fc_skipped_inf_nan", 0) + 1
+                continue
+            want_s = f"{ty} {want[1]:x}" if want[0] == "f" else f"bool {str(want[1]).lower()}"
+            # (2) Go's meaning of the REAL printed text, constants evaluated exactly
+            try:
+                got, ops, texts = go_file_eval(gofile, ty)
+            except Exception as ex:
+                ctx.broken_ties.append(("FC go text evaluation", f"case {cid} {sexp}: {type(ex).__name__} {ex}"))
+                continue
+            got_s = (f"{got[1]} {got[2]:x}" if got[0] == "f" else f"bool {str(got[1]).lower()}" if got[0] == "b" else
+                     f"go-compile-error {got[1]}" if got[0] == "go-compile-error" else str(got))
+            # tie: the Lean evaluator (Model/GoConst + driver walk) on the same text
+            if pred == f"{got_s} constops={ops}":
+                eq[kind] += 1
+            else:
+                tie_fail(kind, r, pred + f" | python: {got_s} constops={ops}")
+            if ops > 1:
+                ctx.report({"oracle": "float-constant", "kind": "constant-expression-with-more-than-one-operator"},
+                           f"a printed Go constant expression has {ops} operators (ANF should name every intermediate result); Go rounds only once", payload)
+            if len(samples_out) < 12 and tag in ("lit-op-lit", "condition") and got_s != want_s:
+                samples_out.append({"id": cid, "stream": kind, "case": sexp, "source_meaning": want_s, "go_meaning_of_printed_text": got_s})
+            fc_sem.append((cid, ty, want, payload, r[5] if len(r) > 5 else ""))
+            if got_s != want_s:
+                gotext = "\n".join(l_ for l_ in _go_lines(gofile))
+                pl = dict(payload, source_meaning=want_s, go_meaning_of_printed_text=got_s, printed_go=gotext, literal_texts_in_constant_expressions=texts[:6])
+                stmt = next((l_ for l_ in src.splitlines() if l_.startswith("    ") and "string_println" not in l_ and l_.strip() != "()"), sexp).strip()
+                if got[0] == "go-compile-error":
+                    ctx.report({"oracle": "float-constant", "kind": "go-constant-expression-rejected-by-go-compiler", "why": got[1], "class": "float"},
+                               f"`{stmt}` at {ty} means {want_s} but its operands are printed as literals: a Go constant expression the Go compiler rejects ({got[1]})", pl)
+                else:
+                    sign = 1 << (sum(FMT[ty]) - 1)
+                    if want[0] == "f" and got[0] == "f" and want[1] ^ got[2] == sign and want[1] & ~sign == 0:
+                        sig = {"oracle": "float-constant", "kind": "go-constant-expression-differs-from-source", "operand_text": "negative-zero"}
+                        cls = "the constant -0.0 is +0 in Go"
+                    else:
+                        order = ["exact", "f64-round-trip", "f32-round-trip-only"]
+                        cls = max([text_class(t_, ty) for t_ in texts if "." in t_] or ["exact"], key=order.index)
+                        sig = {"oracle": "float-constant", "kind": "go-constant-expression-differs-from-source", "type": ty, "operand_text": cls}
+                    ctx.report(sig,
+                               f"`{stmt}` at {ty} means {want_s} (each literal rounded to {ty}, IEEE operation) but the printed Go evaluates the "
+                               f"literal TEXTS {texts[:4]} exactly and rounds once: {got_s} (operand texts: {cls})", pl)
 
         # ---------------------------------------------------------------- PARSE / FMT / EVAL: model vs Rust std, plus python's own
         elif kind == "PARSE":
@@ -485,6 +843,37 @@ def run(ctx):
             if not is_float and verb not in ("%d", "%v"):
                 ctx.report({"oracle": "to_string", "kind": "integer-not-formatted-in-decimal", "verb": verb}, f"{name} uses {verb}", payload)
 
+    # FC (a): the REAL Core under the Lean source semantics `Sem` (gomlmodel sem) must print the source meaning
+    if fc_sem and os.path.exists(vlib.MODEL):
+        import subprocess
+        lines = [f"{cid}\t{core}" for cid, _, _, _, core in fc_sem if core]
+        p_ = subprocess.run(["bash", "-c", f"ulimit -s unlimited; exec {vlib.MODEL} sem"], input="\n".join(lines) + "\n",
+                            stdout=subprocess.PIPE, stderr=subprocess.PIPE, text=True, timeout=3000)
+        semres = {}
+        for l_ in p_.stdout.split("\n"):
+            f_ = l_.split("\t")
+            if len(f_) >= 3:
+                semres[f_[0]] = (f_[1], vlib.unesc(f_[2]))
+        if p_.returncode != 0:
+            ctx.broken_ties.append(("model driver sem", p_.stderr[-500:]))
+        n_sem = n_sem_ok = 0
+        for cid, ty, want, payload, core in fc_sem:
+            st = semres.get(cid)
+            n_sem += 1
+            if not st or st[0] != "ok":
+                ctx.broken_ties.append(("Sem on Core (FC)", f"case {cid}: {st}"))
+                continue
+            outp = st[1].strip()
+            okv = (outp == str(want[1]).lower()) if want[0] == "b" else (parse_go_number(outp, ty) == want[1])
+            if okv:
+                n_sem_ok += 1
+            else:
+                ctx.report({"oracle": "float-constant", "kind": "core-under-sem-differs-from-source"},
+                           f"the real Core evaluates (Sem) to `{outp}` but the written program means {want}", dict(payload, sem_output=outp))
+        stats["fc_sem_on_core_runs"] = n_sem
+        stats["fc_sem_on_core_equal_to_source_meaning"] = n_sem_ok
+    fp = (model.get("fprint") or [""])[0]
+    stats["float_literal_printing"] = fp
     # recorded corpus output (from real Go) for the float programs: must be plain decimals
     corpus_notes = []
     for prog in ("050_float_ops", "053_float_pattern_matching"):
@@ -506,10 +895,10 @@ def run(ctx):
     total = sum(n.values())
     cov = {
         "evaluations": total, "distinct_nontrivial": len(distinct),
-        "rule": "one case = one program compiled by the real pipeline (LIT/NEG/PAT/OP/FLT), or one call of the Rust std function the compiler uses "
+        "rule": "one case = one program compiled by the real pipeline (LIT/NEG/PAT/OP/FLT/FC), or one call of the Rust std function the compiler uses "
                 "(PARSE = str::parse::<iN/uN>, FMT = iN::to_string, EVAL = wrapping_* as a third opinion on the Lean operator semantics), or one runtime "
                 "helper (TOSTR). distinct_nontrivial counts distinct LIT inputs with a value > 9, distinct PAT and FLT inputs, distinct (operator,type,"
-                "operand shape) triples, NEG inputs and helpers; PARSE/FMT/EVAL are not counted",
+                "operand shape) triples, NEG inputs, FC programs and helpers; PARSE/FMT/EVAL are not counted",
         "streams": n, "model_equal": eq, "model_diffs": model_diffs, "impl_oracle_failures": len(ctx.violations),
         "stats": stats, "samples": samples_out,
         "input_distribution": "LIT: every value 0..300 at i8 and u8, ±2 around every boundary of all 8 integer types in every suffix form and unsuffixed, "
@@ -520,9 +909,14 @@ def run(ctx):
                               "outside the scrutinee type but inside int32 / around int32's end; OP: 10 arithmetic/comparison "
                               "operators + neg × 8 integer types × operand shapes var/var, var/lit, lit/var, lit/lit (incl. overflowing and zero-divisor "
                               "literal pairs), bool and float operators; each integer OP case is evaluated on all 256×256 operand pairs (8-bit) or "
-                              "boundary+random pairs against the source meaning; FLT: decimals, f32 rounding midpoints ± 10^-k, range ends, subnormals",
+                              "boundary+random pairs against the source meaning; FC: float operators whose operands are literals (lit op lit grid over one-decimal and dyadic values + seeded random "
+                              "decimals, exact ties, literal comparisons, three literals in both associations, mixed with variables, unary minus, nested, call "
+                              "arguments, conditions, constant zero divisor / overflow / negative zero; float32 and float64): source meaning from exact "
+                              "Fractions vs Sem on the real Core vs Go's constant rules on the real printed text; FLT: decimals, f32 rounding midpoints ± 10^-k, range ends, subnormals",
     }
     ctx.assumptions += [
+        "Go constant expressions: numeric literals are untyped arbitrary-precision constants, evaluated exactly, converted once at the typed use; a constant zero divisor and a constant that overflows the type are compile errors; there is no negative-zero constant (Go specification, Constants / Constant expressions) — Model/GoConst.lean and go_file_eval in c10.py",
+        "IEEE-754 + - * / on float32/float64 are the exact result correctly rounded (ieeeBin / ieee); signed-zero results and NaN are not modelled",
         "Go's semantics of + - * / < <= > >= == != - ! on sized integers is what the Go specification says (goBinInt in Lean, go_bin in the oracle); no Go toolchain exists to observe it",
         "floats: validation only, no theorem; Go's float32 arithmetic is assumed to round every operation to single precision (the Go spec permits fused multiply-add across statements on some architectures; emitted code has no explicit float32(...) conversions)",
         "fmt.Sprintf(\"%d\") on an integer renders it in decimal (sprintfD); %g/%v on floats are taken as 'readable decimal form' without modelling their exact digits",
